@@ -33,6 +33,9 @@ _RP_TBL = models.ResourceProvider.__table__
 _AGG_TBL = models.PlacementAggregate.__table__
 _RP_AGG_TBL = models.ResourceProviderAggregate.__table__
 _RP_TRAIT_TBL = models.ResourceProviderTrait.__table__
+# The number of association tables joined in one query; see
+# provider_ids_matching_aggregates and provider_ids_matching_required_traits.
+_MAX_JOINS = 50
 
 
 LOG = logging.getLogger(__name__)
@@ -1023,27 +1026,36 @@ def provider_ids_matching_aggregates(context, member_of, rp_ids=None):
         r[0]: r[1] for r in context.session.execute(agg_sel).fetchall()
     }
 
-    rp_tbl = sa.alias(_RP_TBL, name='rp')
-    join_chain = rp_tbl
-
-    for x, members in enumerate(member_of):
-        rpa_tbl = sa.alias(_RP_AGG_TBL, name='rpa%d' % x)
-
+    agg_id_lists = []
+    for members in member_of:
         agg_ids = [agg_uuid_map[member] for member in members
                    if member in agg_uuid_map]
         if not agg_ids:
             # This member_of list contains only non-existent aggregate UUIDs
             # and therefore we will always return 0 results, so short-circuit
             return set()
+        agg_id_lists.append(agg_ids)
 
-        join_cond = sa.and_(
-            rp_tbl.c.id == rpa_tbl.c.resource_provider_id,
-            rpa_tbl.c.aggregate_id.in_(agg_ids))
-        join_chain = sa.join(join_chain, rpa_tbl, join_cond)
-    sel = sa.select(rp_tbl.c.id).select_from(join_chain)
-    if rp_ids:
-        sel = sel.where(rp_tbl.c.id.in_(rp_ids))
-    return set(r[0] for r in context.session.execute(sel))
+    rp_tbl = sa.alias(_RP_TBL, name='rp')
+    # Databases limit the number of tables in one join (61 for MySQL, 64 for
+    # SQLite), so a long member_of list is evaluated in several queries, each
+    # limited to the providers the previous one found.
+    for start in range(0, len(agg_id_lists), _MAX_JOINS):
+        join_chain = rp_tbl
+        chunk = agg_id_lists[start:start + _MAX_JOINS]
+        for x, agg_ids in enumerate(chunk):
+            rpa_tbl = sa.alias(_RP_AGG_TBL, name='rpa%d' % x)
+            join_cond = sa.and_(
+                rp_tbl.c.id == rpa_tbl.c.resource_provider_id,
+                rpa_tbl.c.aggregate_id.in_(agg_ids))
+            join_chain = sa.join(join_chain, rpa_tbl, join_cond)
+        sel = sa.select(rp_tbl.c.id).select_from(join_chain)
+        if rp_ids:
+            sel = sel.where(rp_tbl.c.id.in_(rp_ids))
+        rp_ids = set(r[0] for r in context.session.execute(sel))
+        if not rp_ids:
+            return set()
+    return rp_ids
 
 
 @db_api.placement_context_manager.reader
@@ -1102,20 +1114,27 @@ def provider_ids_matching_required_traits(
     # WHERE rp.id IN ($RP_IDs)
 
     rp_tbl = sa.alias(_RP_TBL, name='rp')
-    join_chain = rp_tbl
+    # Databases limit the number of tables in one join (61 for MySQL, 64 for
+    # SQLite), so a long list of required traits is evaluated in several
+    # queries, each limited to the providers the previous one found.
+    for start in range(0, len(required_traits), _MAX_JOINS):
+        join_chain = rp_tbl
+        chunk = required_traits[start:start + _MAX_JOINS]
+        for x, any_traits in enumerate(chunk):
+            rpt_tbl = sa.alias(_RP_TRAIT_TBL, name='rpt%d' % x)
 
-    for x, any_traits in enumerate(required_traits):
-        rpt_tbl = sa.alias(_RP_TRAIT_TBL, name='rpt%d' % x)
+            join_cond = sa.and_(
+                rp_tbl.c.id == rpt_tbl.c.resource_provider_id,
+                rpt_tbl.c.trait_id.in_(any_traits))
+            join_chain = sa.join(join_chain, rpt_tbl, join_cond)
 
-        join_cond = sa.and_(
-            rp_tbl.c.id == rpt_tbl.c.resource_provider_id,
-            rpt_tbl.c.trait_id.in_(any_traits))
-        join_chain = sa.join(join_chain, rpt_tbl, join_cond)
-
-    sel = sa.select(rp_tbl.c.id).select_from(join_chain)
-    if rp_ids:
-        sel = sel.where(rp_tbl.c.id.in_(rp_ids))
-    return set(r[0] for r in context.session.execute(sel))
+        sel = sa.select(rp_tbl.c.id).select_from(join_chain)
+        if rp_ids:
+            sel = sel.where(rp_tbl.c.id.in_(rp_ids))
+        rp_ids = set(r[0] for r in context.session.execute(sel))
+        if not rp_ids:
+            return set()
+    return rp_ids
 
 
 @db_api.placement_context_manager.reader
